@@ -62,8 +62,19 @@ pub fn handle(op: &str, a: &[&str]) -> Option<Resp> {
                 let before = doc.to_string();
                 let before_paras: Vec<Option<String>> =
                     handles.iter().map(|p| if live(p) { Some(p.to_string()) } else { None }).collect();
+                let before_pos: Vec<usize> =
+                    handles.iter().map(|p| usize::from(p.syntax().text_range().start())).collect();
                 let f: Vec<&str> = op.split('.').collect();
+                // an operation through the handle of a removed paragraph is skipped
+                if matches!(f[0], "set" | "ins" | "rm" | "ren") {
+                    let h = f[1].parse::<usize>().ok()?;
+                    if handles.get(h).map(|p| !live(p)).unwrap_or(true) {
+                        outs.push(format!("~={}|{}", es(&before), show_handles(&handles)));
+                        continue;
+                    }
+                }
                 let mut touched: Option<usize> = None;
+                let mut removed_range: Option<(usize, usize)> = None;
                 let ret = match f.as_slice() {
                     ["set", h, k, v] => {
                         let (h, k, v) = (h.parse::<usize>().ok()?, ds(k)?, ds(v)?);
@@ -145,6 +156,10 @@ pub fn handle(op: &str, a: &[&str]) -> Option<Resp> {
                         if i < model.order.len() {
                             let h = model.order.remove(i);
                             model.paras[h] = None;
+                            // comments written inside the removed paragraph go with it
+                            if let Some(Some(t)) = before_paras.get(h) {
+                                removed_range = Some((before_pos[h], before_pos[h] + t.len()));
+                            }
                         }
                         "-".to_string()
                     }
@@ -178,19 +193,28 @@ pub fn handle(op: &str, a: &[&str]) -> Option<Resp> {
                             continue;
                         }
                         if let (Some(b), true) = (&before_paras[h], live(p)) {
-                            if &p.to_string() != b && fail.is_none() {
+                            // up to the terminator of an unterminated last line, which an
+                            // append has to supply
+                            let now = p.to_string();
+                            let same = &now == b || (!b.ends_with('\n') && now == format!("{}\n", b));
+                            if !same && fail.is_none() {
                                 fail = Some(format!("after {}: text of untouched paragraph {} changed", op, h));
                             }
                         }
                     }
-                    if fail.is_none() && comment_lines(&before) != comment_lines(&after) {
+                    let expected_comments = match removed_range {
+                        Some((a, b)) => comment_lines(&format!("{}\n{}", &before[..a], &before[b..])),
+                        None => comment_lines(&before),
+                    };
+                    if fail.is_none() && expected_comments != comment_lines(&after) {
                         fail = Some(format!("after {}: comment lines changed: {:?} -> {:?}", op, comment_lines(&before), comment_lines(&after)));
                     }
                     // field edits: everything outside the touched paragraph is byte-identical
                     if let (Some(h), true) = (touched, fail.is_none()) {
                         if let (Some(Some(bp)), true) = (before_paras.get(h), live(&handles[h])) {
                             let ap = handles[h].to_string();
-                            if let Some(pos) = before.find(bp.as_str()) {
+                            {
+                                let pos = before_pos[h];
                                 let pre = &before[..pos];
                                 let post = &before[pos + bp.len()..];
                                 if !bp.is_empty() && !(after.starts_with(pre) && after.ends_with(post) && after.len() == pre.len() + ap.len() + post.len()) {
